@@ -189,4 +189,45 @@ theorem build_done_or_failed {E : Type} {g : Graph} (gok : GraphOK g) (a : Args)
   | bad m => simp only []; intro h; rcases h with ⟨n, h⟩ | h <;> cases h
 
 
+/-- The same for the part of `run::build` that follows a reload (a fresh `Work` on the reloaded
+    graph). -/
+theorem buildReloaded_done_or_failed {E : Type} {g : Graph} (gok : GraphOK g) (a : Args) (c : Choices E) (J : S → E → Prop)
+    (spec : DoneSpec g c J) (e : E) (hj : J (fresh a) e) (n0 : Nat)
+    (h : (∃ n, (buildReloaded g a c e n0).2.2 = .done n) ∨ (buildReloaded g a c e n0).2.2 = .failed) :
+    J (buildReloaded g a c e n0).1 (buildReloaded g a c e n0).2.1 := by
+  revert h
+  unfold buildReloaded phase2
+  simp only []
+  have i2 := fresh_inv g a
+  have hw : WRRel g a.par (fresh a)
+      (if !a.targets.isEmpty then wantTargets g a (fresh a) a.targets
+       else if !a.defaults.isEmpty then wantAll g (fresh a) a.defaults
+       else wantAll g (fresh a) ((List.range g.nFiles).filter (· ≠ a.manifest))) := by
+    split
+    · exact wantTargets_rel a gok _ _ _ (WRel.refl i2)
+    · split
+      · exact wantAll_rel gok _ _ _ (WRel.refl i2)
+      · exact wantAll_rel gok _ _ _ (WRel.refl i2)
+  generalize (if !a.targets.isEmpty then wantTargets g a (fresh a) a.targets
+       else if !a.defaults.isEmpty then wantAll g (fresh a) a.defaults
+       else wantAll g (fresh a) ((List.range g.nFiles).filter (· ≠ a.manifest))) = w at hw ⊢
+  cases w with
+  | ok u3 s3 =>
+    simp only []
+    have j3 : J s3 e := spec.ext _ s3 _ (WRel.doneEq hw) hj
+    cases hres2 : (runLoop g a.par c (runFuel g) s3 e c.perms c.finishes).result with
+    | ok bb2 =>
+      cases bb2 with
+      | true =>
+        simp only []
+        intro _
+        exact runLoop_done c J spec (runFuel g) s3 _ _ _ hw.inv j3 hres2
+      | false =>
+        simp only [ofRun]; intro _
+        exact runLoop_done_ok c J spec (runFuel g) s3 _ _ _ hw.inv j3 false hres2
+    | _ => simp only [ofRun]; intro h; rcases h with ⟨n, h⟩ | h <;> cases h
+  | err m s3 => simp only []; intro h; rcases h with ⟨n, h⟩ | h <;> cases h
+  | bad m => simp only []; intro h; rcases h with ⟨n, h⟩ | h <;> cases h
+
+
 end N2V.Run
